@@ -30,12 +30,9 @@ func VerifC01_Message() {
 	c01framed(buildMessage(k), msgTypeCode[k])
 }
 
-func c01n() int {
-	if vr.Thorough() {
-		return 3
-	}
-	return 2
-}
+// match lists: two fields; the thorough tier widens the kinds per field (8 instead of 4), not
+// the list — three fields of eight kinds ran to 2.8 million paths and starved the other harnesses
+func c01n() int { return 2 }
 
 // flow-mod: every command byte, richer instruction lists
 func VerifC01_FlowModInstructions() {
